@@ -90,6 +90,10 @@ CHECKS = {
    technique='exhaustive enumeration of fault positions: every numbered file-system call of each scenario fails in turn (plus calls revealed by a fault, and every pair in thorough), on a real temporary directory and a second real file system',
    text='111 scenarios (size x destination x alias x parent x source presence, CopyFile and MoveFile, real EXDEV between / and /dev/shm) x every single fault position incl. partial copies = 508 runs (quick); byte-level snapshots before/after decide; the source may be removed only once the destination is complete (checked at the remove call).',
    note='Trusted base: the vos seam (engine/shim/vos) mounted over os/io calls of util/osutil by the instrumenter; real file systems.'),
+ 'C20': dict(engine='spin + real-process replay', cat='model_checking', ref='4 (C20), 2.5',
+   technique='Promela model of caller/launcher/daemon checked exhaustively by spin (no partial-order reduction), parameterised by the code (order of signal.Notify and cmd.Start read by AST); every reachable schedule class is obtained by reachability queries with replayed witness trails and then replayed on real processes through the verif pause points',
+   text='Model: all interleavings of 1 and 2 concurrent Launch calls (52 / 6509 states on the current tree), invariants: Launch ok => Done() happened, marker present, daemon alive, launcher gone; Done() happened and daemon alive => Launch ok. Classes = when Done() landed relative to the two pause points of the launcher; each class and the free race, for one and two concurrent launches (10 plans, 15 launches), is forced on real processes built with -tags verif: Launch must return the daemon pid only after Done(), the marker must exist, the daemon must stay alive and be orphaned, the launcher must be gone, and the real outcome must be one the model has for that class.',
+   note='Trusted base: spin 6.5, the Promela model (models/c20_daemon.pml), the AST reading of the Notify/Start order, the two pause points (hook commit, build tag verif), the OS. Inside a class the kernel schedules freely; no timeout is used as an oracle (a step exceeding 30 s is INFRA-ERROR).'),
 }
 
 NA_REASON = 'check not built yet (work in progress; see DESIGN.md section 4)'
@@ -100,8 +104,8 @@ m = {
  'hooks': {
    'guard': 'verif',
    'enable': 'go build -tags verif (only daemon/ has tag-guarded hooks; all other instrumentation is generated at check time by engine/vinstr and mounted with go build -overlay, never touching /repo)',
-   'baseline_off_cmd': 'cd /repo && go test -vet=off -count=1 -timeout 25m ./...',
-   'source_commits': [],
+   'baseline_off_cmd': 'cd /repo && go test -vet=off -count=1 -timeout 25m ./...   # no -tags: the guard verif is off, verifPause is an empty stub',
+   'source_commits': ['6559d687863e9452a7303ad3d2f79e04feccfb72'],
    'add_only': True,
  },
  'engines': [
